@@ -36,5 +36,12 @@ fn main() {
     if tc.contains("pub fn stopped_at") {
         println!("cargo:rustc-cfg=hook_stopped_at");
     }
+    // The completion latch between the search thread and `stop` is exercised directly by C05 if it
+    // still has the shape new / set / wait / reset.
+    println!("cargo::rustc-check-cfg=cfg(latch_api)");
+    let sy = fs::read_to_string(format!("{src}/engine/util/sync.rs")).unwrap_or_default();
+    if sy.contains("pub struct LockLatch") && sy.contains("fn new()") && sy.contains("pub fn wait(&self)") && sy.contains("pub fn set(&self)") && sy.contains("pub fn reset(&self)") {
+        println!("cargo:rustc-cfg=latch_api");
+    }
     println!("cargo::rustc-check-cfg=cfg(jgilchrist_tcheran_verif)");
 }
